@@ -195,8 +195,23 @@ fn reply<T: RF>(got: Vec<T>, want: Vec<T>, what: &str) -> Option<Out> {
 
 fn pow_ref<T: RF>(a: &[T], e: u64) -> Vec<T> {
     let mut acc = vec![T::one()];
-    for _ in 0..e {
-        acc = school(&acc, a);
+    if e <= 512 {
+        for _ in 0..e {
+            acc = school(&acc, a);
+        }
+        return acc;
+    }
+    // large exponents (only generated for zero / constant bases): right-to-left binary powering -- not the left-to-right
+    // square-and-multiply of the code under test
+    let (mut base, mut e) = (a.to_vec(), e);
+    while e > 0 {
+        if e & 1 == 1 {
+            acc = school(&acc, &base);
+        }
+        e >>= 1;
+        if e > 0 {
+            base = school(&base, &base);
+        }
     }
     acc
 }
@@ -665,6 +680,14 @@ pub fn gen(rng: &mut Rng, thorough: bool, out: &mut Vec<String>) {
                     }
                     let k = zeros_k(rng);
                     let a = pstr(rng, f == "x", d, k);
+                    out.push(format!("poly {op} {f} {a} {e}"));
+                }
+            }
+            // exponents that use the high bits of the `u32` (bit 31 is only read when `bit_length = 31`): feasible for
+            // zero and constant bases only -- 32 squarings of a constant
+            for e in [65537u64, (1 << 31) - 1, 1 << 31, (1 << 31) + 1, 0xAAAA_AAAB, 0xFFFF_0001, u32::MAX as u64] {
+                for d in [-1i64, 0] {
+                    let a = pstr(rng, f == "x", d, 0);
                     out.push(format!("poly {op} {f} {a} {e}"));
                 }
             }
